@@ -561,6 +561,9 @@ structure Cfg where
   reportVars : Nat := 1
   /-- configuration fails in `pytask_parse_config` (before any `pytask_post_parse` ran) -/
   configFails : Bool := false
+  /-- (only with `configFails`) the failure is raised by `create_database` in `database.pytask_post_parse`, i.e. after the
+  `pytask_post_parse` implementations that pluggy calls before it have run; no `pytask_unconfigure` follows -/
+  failsInDatabase : Bool := false
   deriving Repr, DecidableEq, Inhabited
 
 /-- process state + the plugin manager's `CaptureManager` + what the session accumulated -/
@@ -706,7 +709,9 @@ def phaseOps (ios : List TaskIO) : List Op :=
 
 /-- `build()` (build.py:182-282) as far as process state goes -/
 def buildOps (cfg : Cfg) (mods : List ModSpec) (ios : List TaskIO) : List Op :=
-  if cfg.configFails then [] else
+  if cfg.configFails then
+    (if cfg.failsInDatabase then (Generated.postParseOrder.takeWhile (fun n => n != "database")).map Op.postParse else [])
+  else
   Generated.postParseOrder.map Op.postParse
     ++ [Op.collect mods, Op.collectLog]
     ++ phaseOps ios
